@@ -879,6 +879,13 @@ def run(res, tier, seed, replay):
         twice.append((wm.encode(), inl.encode()))
         wm2 = "JSIGHT 0.3\nMACRO @g\n(\n" + _ind(body, 2) + ")\nMACRO @h\n(\n  PASTE @g\n)\n" + "".join(h + "\n  PASTE @h\n" for h in hosts_)
         twice.append((wm2.encode(), inl.encode()))
+    # a URL directive in a macro pasted twice; a root-level directive inside a macro pasted below a method
+    twice.append((b"JSIGHT 0.3\nMACRO @u\n(\n  URL /pets\n)\nPASTE @u\n  GET\n    200 any\nPASTE @u\n  POST\n    200 any\n",
+                  b"JSIGHT 0.3\nURL /pets\n  GET\n    200 any\nURL /pets\n  POST\n    200 any\n"))
+    twice.append((b"JSIGHT 0.3\nMACRO @e\n(\n  TYPE @error\n    {}\n  404 @error\n)\nGET /pets\n  200 any\n  PASTE @e\n",
+                  b"JSIGHT 0.3\nGET /pets\n  200 any\n  TYPE @error\n    {}\n  404 @error\n"))
+    twice.append((b"JSIGHT 0.3\nMACRO @e\n(\n  Query\n    {}\n  Body any\n)\nPOST /pets\n  Request\n    Headers\n      {}\n    PASTE @e\n  200 any\n",
+                  b"JSIGHT 0.3\nPOST /pets\n  Request\n    Headers\n      {}\n    Query\n      {}\n    Body any\n  200 any\n"))
     o_tw = run_impl([P.run_line("out=sha", [("a.jst", d)]) for pair in twice for d in pair])
     res.count(len(o_tw))
     tw_dist = {"both accepted": 0, "both rejected": 0}
